@@ -27,6 +27,7 @@ static hc_args hc_parse(int argc, char **argv, const char *prop)
 			if (personality(pers | ADDR_NO_RANDOMIZE) != -1) execv("/proc/self/exe", argv);
 		}
 	}
+	setpgid(0, 0);       /* own process group: the explorer's kill(0, SIGTERM) on a harness error must not reach the driver */
 	a.tier = "quick"; a.budget_s = 100; a.workers = 16;
 	for (int i = 1; i < argc; i++) {
 		if (!strcmp(argv[i], "--tier") && i + 1 < argc) a.tier = argv[++i];
